@@ -184,6 +184,8 @@ pub fn source_strategy() -> BoxedStrategy<Source> {
         5 => Just(Source::Mem),
         1 => Just(Source::File),
         2 => (1u16..200, 0u16..200).prop_map(|(before, after)| Source::FileRange { before, after }),
+        // `after == 0`: the range is given as "from `before` to the end of the file" (size None)
+        1 => (1u16..5000).prop_map(|before| Source::FileRange { before, after: 0 }),
     ]
     .boxed()
 }
@@ -292,11 +294,21 @@ pub fn same_hint_run_strategy() -> BoxedStrategy<Vec<ContentSpec>> {
         prop_oneof![3 => 4094usize..4100, 1 => 8189usize..8194],
         any::<u32>(),
         prop::collection::vec(content_strategy(LenClass::Small, true), 0..6),
+        // file-backed contents around the places where a cluster closes (the first blob of the next
+        // cluster comes from a file while bytes of the previous cluster may still be buffered)
+        prop::collection::vec((4090usize..4100, source_strategy()), 0..4),
     )
-        .prop_map(|(hint, n, seed, tail)| {
+        .prop_map(|(hint, n, seed, tail, files)| {
             let mut v: Vec<ContentSpec> = (0..n as u32)
                 .map(|i| ContentSpec { len: 3 + (seed.wrapping_add(i)) % 19, ent: Entropy::Text, seed: seed.wrapping_add(i), hint, source: Source::Mem, dup_of: None, flip: None })
                 .collect();
+            for (at, source) in files {
+                for k in [at, at + 4095] {
+                    if k < v.len() {
+                        v[k].source = source;
+                    }
+                }
+            }
             v.extend(tail);
             v
         })
@@ -361,9 +373,9 @@ pub fn make_reader(bytes: &[u8], source: Source) -> Box<dyn jbk::creator::InputR
             f.write_all(&vec![0xA5; before as usize]).unwrap();
             f.write_all(bytes).unwrap();
             f.write_all(&vec![0x5A; after as usize]).unwrap();
-            Box::new(
-                jbk::creator::InputFile::new_range(f, before as u64, Some(bytes.len() as u64)).unwrap(),
-            )
+            // a range that ends with the file is given without a size (second entry of `new_range`)
+            let size = if after == 0 { None } else { Some(bytes.len() as u64) };
+            Box::new(jbk::creator::InputFile::new_range(f, before as u64, size).unwrap())
         }
     }
 }
